@@ -126,6 +126,33 @@ theorem stalled_side_never_succeeds (dec : Decoder) (role : Role) (cfg : Cfg) (p
     (h : (runSide dec role cfg pool s .stall).verdict = .ctx) :
     (runSide dec role cfg pool s .stall).verdict.isOk = false := by rw [h]; rfl
 
+/-- **chunking is irrelevant**: reading `n` bytes from any chunking of a stream gives exactly what
+`readFull` gives on the concatenation -/
+theorem chunking_irrelevant (n : Nat) (chunks : List Bytes) (e : End) :
+    (match gather chunks n [] with
+     | some (bs, rest) => readFull n chunks.flatten e = .ok bs rest.flatten
+     | none => ∀ bs rest, readFull n chunks.flatten e ≠ .ok bs rest) := by
+  cases h : gather chunks n [] with
+  | some p =>
+    obtain ⟨bs, rest⟩ := p
+    obtain ⟨h1, h2, h3⟩ := gather_some h
+    simp only
+    unfold readFull
+    by_cases h0 : n = 0
+    · subst h0; simp at h1 h2 ⊢; exact ⟨h1, h2.symm⟩
+    · simp only [h0, h3, if_false, if_true]; rw [h1, h2]; simp
+  | none =>
+    have hl := gather_none h
+    simp only
+    intro bs rest
+    unfold readFull
+    have h0 : n ≠ 0 := by omega
+    have hle : ¬ n ≤ chunks.flatten.length := by omega
+    simp only [h0, hle, if_false]
+    split <;> simp
+    split <;> simp
+
+
 /-- `readMsg` is total: no input makes the header slicing / size decoding panic -/
 theorem readMsg_total (allowed : List Nat) (s : Bytes) (e : End) (req : Nat) :
     readRaw allowed s e ≠ .fail .panic req := readRaw_no_panic allowed s e req
